@@ -65,6 +65,9 @@ def set_attrs(py, module: str) -> Set[str]:
     return out
 
 
+TOTAL_KEY = re.compile(r"\.ident\b|lambda (\w+): \1$|lambda (\w+): str\(\2\)$")
+
+
 def set_funcs(py) -> Set[str]:
     out = set()
     for mod, fn in py.all_functions():
@@ -81,6 +84,12 @@ def is_set_expr(e: ast.AST, local_sets: Set[str], attrs: Set[str], funcs: Set[st
         last = cn.split(".")[-1]
         if cn in ("set", "frozenset"):
             return True
+        if cn == "sorted" and e.args:
+            keyed = [k for k in e.keywords if k.arg == "key"]
+            if keyed and not TOTAL_KEY.search(ast.unparse(keyed[0].value)):
+                # a stable sort with a non-injective key keeps the set's order among equal keys
+                return is_set_expr(e.args[0], local_sets, attrs, funcs)
+            return False
         if last in ("glob", "rglob", "iterdir", "listdir", "scandir"):
             return True
         if last in funcs:
@@ -219,6 +228,15 @@ def r1_unordered_iteration(ctx, rep):
                     if py.enclosing_function(node) is not fn and node is not fn:
                         continue
                     if isinstance(it, ast.Call) and call_name(it) in ("sorted",):
+                        keyed = [k for k in it.keywords if k.arg == "key"]
+                        if keyed and it.args and is_set_expr(it.args[0], locs, attrs, funcs):
+                            kt = ast.unparse(keyed[0].value)
+                            total = re.search(r"\.ident\b|str\(\w+\)\)?$|lambda (\w+): \1$", kt) is not None
+                            rep.ob(f"{py.qualname(fn)} sorted(set, key={kt[:40]})", total,
+                                   "sort key is total on the elements" if total else
+                                   f"`{ast.unparse(it)[:80]}` sorts a set with the key `{kt}`: elements with equal keys keep "
+                                   f"the set's hash order (the sort is stable), so the result still depends on PYTHONHASHSEED",
+                                   py.nloc(node))
                         continue
                     if not is_set_expr(it, locs, attrs, funcs):
                         continue
@@ -386,7 +404,45 @@ def r4_graph_emission(ctx, rep):
     c13.r5_sorted_emission(ctx, rep)
 
 
+def r5_serial_parallel_agree(ctx, rep):
+    """worker count: the serial and the parallel branch of output_graphs write the same graphs."""
+    py = ctx.py
+    fn = py.func("GraphManager.output_graphs")
+    br = [n for n in fn.body if isinstance(n, ast.If) and "njobs == 0" in ast.unparse(n.test)]
+    if not br:
+        raise AnalysisError("output_graphs: `if njobs == 0` not found")
+    serial, parallel = br[0].body, br[0].orelse
+    s_map: Dict[str, Set[str]] = {}
+    for st in serial:
+        if isinstance(st, ast.For):
+            coll = ast.unparse(st.iter)
+            for c in py.walk_calls(st):
+                if call_name(c).endswith(".create_svg"):
+                    s_map.setdefault(coll, set()).add(call_name(c).split(".")[-2])
+    p_map: Dict[str, Set[str]] = {}
+    filtered = []
+    for c in ast.walk(ast.Module(body=parallel, type_ignores=[])):
+        if isinstance(c, ast.ListComp) and isinstance(c.elt, ast.Tuple):
+            coll = ast.unparse(c.generators[0].iter)
+            graphs = {e.attr for e in c.elt.elts if isinstance(e, ast.Attribute) and e.attr.endswith("graph")}
+            p_map.setdefault(coll, set()).update(graphs)
+            if c.generators[0].ifs:
+                filtered.append((coll, ast.unparse(c.generators[0].ifs[0])))
+    if len(s_map) < 5 or len(p_map) < 5:
+        raise AnalysisError("output_graphs: serial/parallel branches not understood")
+    for coll in sorted(set(s_map) | set(p_map)):
+        ok = s_map.get(coll) == p_map.get(coll)
+        rep.ob(f"output_graphs {coll}: same graphs in both branches", ok,
+               f"{sorted(s_map.get(coll, []))}" if ok else
+               f"serial writes {sorted(s_map.get(coll, []))}, parallel writes {sorted(p_map.get(coll, []))}", py.nloc(br[0]))
+    rep.ob("output_graphs: parallel work list is not filtered", not filtered,
+           "every entity of every collection is handed to the workers" if not filtered else
+           f"the parallel branch filters {filtered[0][0]} by `{filtered[0][1]}` while the serial branch writes all graphs of "
+           f"every entity: with parallel > 0 the other graph of a filtered entity is not written", py.nloc(br[0]))
+
+
 RULES = [
+    RuleSpec("C12.R5", r5_serial_parallel_agree, "serial and parallel graph output agree", floor=6),
     RuleSpec("C12.R4", r4_graph_emission, "graph node/edge emission iterates sorted views (shared with C13.R5)", floor=18),
     RuleSpec("C12.R1", r1_unordered_iteration, "no unordered source reaches an order-sensitive sink unsorted", floor=10),
     RuleSpec("C12.R2", r2_stale_output, "stale output cannot survive", floor=4),
